@@ -142,13 +142,25 @@ func (h Handler) handleError(ctx context.Context, token string) http.HandlerFunc
 		} else {
 			switch protocol.Of(errMsg.PrevMsgType) {
 			case protocol.DIProtocol:
-				h.DIResponder.HandleError(ctx, errMsg)
+				// A server need not serve every protocol
+				if h.DIResponder != nil {
+					h.DIResponder.HandleError(ctx, errMsg)
+				}
 			case protocol.TO0Protocol:
-				h.TO0Responder.HandleError(ctx, errMsg)
+				// A server need not serve every protocol
+				if h.TO0Responder != nil {
+					h.TO0Responder.HandleError(ctx, errMsg)
+				}
 			case protocol.TO1Protocol:
-				h.TO1Responder.HandleError(ctx, errMsg)
+				// A server need not serve every protocol
+				if h.TO1Responder != nil {
+					h.TO1Responder.HandleError(ctx, errMsg)
+				}
 			case protocol.TO2Protocol:
-				h.TO2Responder.HandleError(ctx, errMsg)
+				// A server need not serve every protocol
+				if h.TO2Responder != nil {
+					h.TO2Responder.HandleError(ctx, errMsg)
+				}
 			}
 		}
 
